@@ -156,6 +156,12 @@ def check_parts(W, rec, parts, boundary: str, paths=("events", "encode_multipart
             body = enc.send_event(M.Preamble(data=b""))
             for kind, name, filename, ctype, value in parts:
                 hdrs = DS.Headers([("Content-Type", ctype)] if ctype else [])
+                if (len(name) + len(parts)) % 3 == 0:
+                    # history: the part object comes from an earlier request (a decoded event, a FileStorage out of
+                    # request.files) and still carries that request's Content-Disposition; what is sent is the event's
+                    # own name and filename
+                    hdrs.add("Content-Disposition", 'form-data; name="previous-name"; filename="../Previous File.PDF"')
+                    rec.observe("events_carrying_an_old_content_disposition")
                 if kind == "file":
                     body += enc.send_event(M.File(name=name, filename=filename, headers=hdrs))
                     data = value
@@ -244,6 +250,18 @@ def check_parts(W, rec, parts, boundary: str, paths=("events", "encode_multipart
             try:
                 r = b.get_request(Request)
                 _compare_form_files(rec, case, "builder_multipart", parts, r.form, r.files)
+                if len(parts) % 2 == 0:
+                    # history: a second builder is made from that request's environ and given other form data
+                    # (re-sending a captured request with edited fields); the new request is described by the new data
+                    b2 = T.EnvironBuilder.from_environ(r.environ)
+                    try:
+                        parts2 = [("field", "edited " + n_, None, None, (v_ if k_ == "field" else "was a file") + " and more text than before") for k_, n_, f_, c_, v_ in parts] + [("field", "extra", None, None, "é" * 40)]
+                        b2.form = DS.MultiDict([(n_, v_) for k_, n_, f_, c_, v_ in parts2])
+                        r2 = b2.get_request(Request)
+                        rec.observe("builders_made_from_an_environ_and_edited")
+                        _compare_form_files(rec, dict(case, second_builder=True), "builder_from_environ", parts2, r2.form, r2.files)
+                    finally:
+                        b2.close()
             finally:
                 b.close()
 
@@ -348,7 +366,7 @@ def check_urlencoded(W, rec, pairs):
             b.close()
 
 
-def concurrent_shared_parser(W, rec, rng, rounds):
+def concurrent_shared_parser(W, rec, rng, rounds, prefix="C02"):
     """Schedule: ONE FormDataParser / MultiPartParser object serving two requests at once (a parser kept on the
     application).  The two input streams hand out a few bytes per read and rendezvous at every read, so the two
     parses interleave piece by piece; each request must still get exactly its own fields and files."""
@@ -418,7 +436,7 @@ def concurrent_shared_parser(W, rec, rng, rounds):
                 t_.join(30)
             for i in (0, 1):
                 if out[i] != exps[i]:
-                    rec.violation("C02/shared-parser:concurrent-requests-mixed-up", f"{kind}: request {'AB'[i]} got {str(out[i])[:300]!r}, expected {str(exps[i])[:300]!r}", case, monitor="roundtrip")
+                    rec.violation(f"{prefix}/shared-parser:concurrent-requests-mixed-up", f"{kind}: request {'AB'[i]} got {str(out[i])[:300]!r}, expected {str(exps[i])[:300]!r}", case, monitor="roundtrip")
                     return
 
 
